@@ -162,4 +162,9 @@ theorem C03_wiring :
     Sso.Generated.skel_proxy_DirectorFunc =
       ["func{", "store:req.URL.Scheme", "store:req.URL.Host", "call:singleJoiningSlash", "store:req.URL.Path", "if{", "store:req.URL.RawQuery", "}", "else{", "store:req.URL.RawQuery", "}", "if{", "call:Set", "}", "call:Add", "if{", "store:req.Host", "}", "}", "return"] := by decide
 
+/-- Tie (T1): the session is looked up under the cookie's exact configured name (`req.Cookie(name)`), the very name
+`deleteCookie` strips. -/
+theorem C03_skeleton_LoadSession : Sso.Generated.skel_store_LoadSession =
+    ["call:NewLogEntry", "call:Cookie", "if{", "return", "}", "call:UnmarshalSession", "if{", "call:WithRequestHost", "call:WithError", "call:Error", "return", "}", "return"] := by decide
+
 end Sso.Forward
